@@ -535,6 +535,51 @@ fn oracles(s: &mut Session, sink: &mut Sink, op: &str, req: &str, resp: &str, be
         sink.fail("C04", &format!("C04:{}:{}", op, why), &format!("after {}: {}", req, why), &s.history);
         return false;
     }
+    // map law (C11), implementation only: a key that was just set is in the element's own view
+    // with that value, a key that was just removed is not — whatever the element inherits from its
+    // ancestors (seed C11f: set_namespace skipped the insertion when the binding was in scope)
+    if resp == "ok" {
+        let w: Vec<&str> = req.split(' ').collect();
+        let node = |i: usize| w.get(i).and_then(|x| x.parse::<usize>().ok()).and_then(|l| s.nodes.get(l).copied());
+        let num = |i: usize| w.get(i).and_then(|x| x.parse::<usize>().ok());
+        let bad: Option<String> = match (w[0], node(1)) {
+            ("set_namespace", Some(e)) => match (num(2), num(3)) {
+                (Some(p), Some(n)) if s.xot.is_element(e) => {
+                    let got = s.xot.namespaces(e).get(s.vocab.prefix(p)).copied();
+                    if got != Some(s.vocab.ns(n)) { Some(format!("namespaces(e).get(prefix) = {:?}", got)) } else { None }
+                }
+                _ => None,
+            },
+            ("remove_namespace", Some(e)) => match num(2) {
+                Some(p) if s.xot.is_element(e) => {
+                    if s.xot.namespaces(e).contains_key(s.vocab.prefix(p)) { Some("the prefix is still declared on the element".to_string()) } else { None }
+                }
+                _ => None,
+            },
+            ("set_attribute", Some(e)) => match (num(2), w.get(3).and_then(|x| crate::common::dec(x))) {
+                (Some(k), Some(v)) if s.xot.is_element(e) => {
+                    let got = s.xot.attributes(e).get(s.vocab.name(k)).cloned();
+                    if got.as_deref() != Some(v.as_str()) { Some(format!("attributes(e).get(name) = {:?}", got)) } else { None }
+                }
+                _ => None,
+            },
+            ("remove_attribute", Some(e)) => match num(2) {
+                Some(k) if s.xot.is_element(e) => {
+                    if s.xot.attributes(e).contains_key(s.vocab.name(k)) { Some("the attribute is still there".to_string()) } else { None }
+                }
+                _ => None,
+            },
+            _ => None,
+        };
+        match bad {
+            Some(why) => sink.fail("C11", &format!("C11:{}:key-not-as-set", w[0]), &format!("after {}: {}", req, why), &s.history),
+            None => {
+                if matches!(w[0], "set_namespace" | "remove_namespace" | "set_attribute" | "remove_attribute") {
+                    sink.stat("oracle.C11.key-as-set");
+                }
+            }
+        }
+    }
     true
 }
 
